@@ -428,6 +428,7 @@ func (s *State) symValue(t types.Type, name string, depth int, nonNil bool) Valu
 		}
 		inner := s.symValue(u.Elem(), "*"+name, depth-1, false)
 		p := s.allocCell(inner, false, name)
+		s.heap[p.Obj].T = u.Elem()
 		if !nonNil {
 			p.Nil = namedVar((name+"==nil"), BoolSort)
 		}
